@@ -185,8 +185,11 @@ Theorem checkers_canon s : kings_apart -> s < 64 ->
 Proof.
   intros Hka Hs. unfold checkers_of. change (turn (abs_board b)) with (stm b).
   rewrite (king_square_spec b (stm b) HC Hking).
-  rewrite (attackers_canon b (opp (stm b)) s _ HC k_lt64).
-  rewrite (checkers_attackers_bit s Hka Hs). tauto.
+  pose proof (attackers_canon b (opp (stm b)) s (king_square b (stm b)) HC k_lt64) as Hat.
+  pose proof (checkers_attackers_bit s Hka Hs) as Hbit.
+  split.
+  - intro H. apply Hat. split; [exact Hs|]. rewrite <- Hbit. exact H.
+  - intro H. apply Hat in H. rewrite Hbit. exact (proj2 H).
 Qed.
 
 Theorem checkers_canon_word : kings_apart ->
@@ -204,7 +207,9 @@ Theorem checkers_in_check : kings_apart ->
   (checkers (update_pin_info b) <> 0 <-> in_check (abs_board b) (stm b) = true).
 Proof.
   intro Hka. unfold in_check. rewrite (king_square_spec b (stm b) HC Hking).
-  rewrite (attacked_by_canon b (opp (stm b)) _ HC k_lt64), <- (checkers_canon_word Hka).
+  cbv iota beta.
+  rewrite (attacked_by_canon b (opp (stm b)) (king_square b (stm b)) HC k_lt64).
+  rewrite <- (checkers_canon_word Hka).
   destruct (N.eqb_spec (checkers (update_pin_info b)) 0) as [E|E]; cbn [negb].
   - split; [intro H; contradiction|discriminate].
   - split; [reflexivity|intros _; exact E].
